@@ -1301,6 +1301,12 @@ def run_history(case):
         out, mut, tr = _invoke(t, obj, c, mode=case.get('names'))
         s1 = _state(obj)
         obs['rng'].append(tr.events[:64])
+        if 'ok' in out:
+            prev_exc = [obs['shared'][j].get('exc') for j in range(i) if calls[j]['t'] == c['t'] and 'exc' in obs['shared'][j]]
+            if prev_exc:
+                tr.sites.add('call_after_exception')
+                if any(e in ('VotingSystemError', 'NotImplementedError') for e in prev_exc):
+                    tr.sites.add('call_after_refusal')
         for site in tr.sites:
             if site not in case.setdefault('_tags', []):
                 case['_tags'].append(site)
@@ -1508,12 +1514,17 @@ def oracle(case, obs):
 # ------------------------------------------------------------------------------------------------
 # generator
 
+NUM_MODES = ['frac', 'fracint', 'dec', 'dec7', 'big', 'big53', 'huge', 'float', 'zero']
 REQUIRED_COUNTERS = ['every_class', 'singleton', 'pav_cache_grows', 'pav_small_after_large', 'borda_n_changes',
                      'seeded_random', 'interleaved_objects', 'defaults_used', 'prev_gains_given', 'nested_prev_gains',
                      'model:pav', 'model:borda', 'model:rng', 'model:rankval', 'model:scoreval', 'checker_materialised',
                      'rng_directed', 'draw:Hare._subtract', 'draw:Hare._distribute_equal_ranking', 'draw:Sortitor.evaluate',
                      'draw:RandomUnrankedBallotSelector.evaluate', 'draw_via:initial_allocation', 'draw_via:direct_transfer',
-                     'draw_via:next_count', 'foreign_first', 'model:dispatch'] + ['foreign_first:' + w for w in
+                     'draw_via:next_count', 'foreign_first', 'model:dispatch', 'raise_first', 'call_after_exception',
+                     'call_after_refusal', 'refusal_first', 'prev_gains_then_none', 'larger_then_smaller', 'smaller_after_larger',
+                     'hash_alike', 'hash_alike:mersenne', 'hash_alike:neg', 'hash_alike:key_order', 'module_function',
+                     'ctor_param_nondefault', 'names:int0', 'names:empty0', 'names:person', 'shared_rank3', 'zero_votes2',
+                     'name_clash', 'prev_absent_party'] + ['num:' + m for m in NUM_MODES] + ['foreign_first:' + w for w in
                                                                                 ('TieBreaking', 'PostConverted', 'PreConverted', 'FixedSeatCount')]
 
 
@@ -1632,6 +1643,11 @@ def generate(rng, tier):
     # (5c) foreign object first: a differently configured object of the same class tree is evaluated BEFORE the object under
     # test, in a fresh interpreter; reference = the object under test alone in another fresh interpreter
     yield from _foreign_first(rng, TG, 24 if tier == 'quick' else 150)
+    # (5d) state between calls, per target: after an exception / refusal, with prev_gains first, larger then smaller
+    yield from _state_directed(rng, TG, names if tier == 'quick' else names * 4)
+    yield from _stv_refusals(rng, TG, 20 if tier == 'quick' else 200)
+    # (5e) inputs that hash alike or are equal up to key order, against an isolated reference
+    yield from _hash_alike(rng, TG, 45 if tier == 'quick' else 400)
     # (6) a class found by reflection that the table does not know: try it with no arguments on simple votes
     for qn in untabled_classes():
         yield _mk(['Plurality'], [dict(c_eval_simple_sel(rng), t=0)], ['untabled_class:' + qn])
@@ -1741,6 +1757,145 @@ def _foreign_first(rng, TG, n):
         yield case
 
 
+
+M61 = 2 ** 61 - 1       # hash(x) == hash(x + M61) for CPython ints; hash(-1) == hash(-2)
+
+
+def _bump_count(arg, delta=None, neg=False):
+    """a copy of a tagged votes argument in which the first integer count is replaced by a value that HASHES alike"""
+    done = [False]
+
+    def go(x):
+        if isinstance(x, dict) and 'D' in x:
+            out = []
+            for k, v in x['D']:
+                if not done[0] and isinstance(v, int) and not isinstance(v, bool):
+                    done[0] = True
+                    v = (-2 if neg else v + M61)
+                elif isinstance(v, dict):
+                    v = go(v)
+                out.append([k, v])
+            return {'D': out}
+        return x
+    a = go(json.loads(json.dumps(arg)))
+    return a if done[0] else None
+
+
+def _neg_count(arg):
+    """the first integer count set to -1 (partner of -2)"""
+    a = json.loads(json.dumps(arg))
+    if isinstance(a, dict) and 'D' in a and a['D'] and isinstance(a['D'][0][1], int):
+        a['D'][0][1] = -1
+        return a
+    return None
+
+
+HASH_TARGETS = ['fn:core.get_n_best', 'fn:util.sorted_votes', 'fn:util.descending_dict', 'Plurality', 'HighestAverages',
+                'LargestRemainder', 'QuotaSelector:select', 'InputOrderSelector', 'TieBreaking', 'PureProportionality',
+                'fn:util.distribution_to_selection', 'AbsoluteThreshold', 'RelativeThreshold', 'InvertedSimpleVotes']
+
+
+def _hash_alike(rng, TG, n):
+    """consecutive inputs that hash alike (x vs x + 2^61 - 1, -1 vs -2) or are equal up to key order; the reference for the
+    second call is the call alone in a fresh interpreter (a module-level memo is shared by 'fresh' instances too)"""
+    names = list(TG)
+    for k in range(n):
+        name = HASH_TARGETS[k % len(HASH_TARGETS)] if k % 3 else rng.choice(names)
+        t = TG[name]
+        c = dict(t['gen'](rng), t=0)
+        if not c['a']:
+            continue
+        kind = ['mersenne', 'neg', 'key_order'][k % 3] if name in HASH_TARGETS else 'mersenne'
+        a0 = c['a'][0]
+        if kind == 'mersenne':
+            b0 = _bump_count(a0)
+        elif kind == 'neg':
+            a0 = _neg_count(a0)
+            b0 = _bump_count(a0, neg=True) if a0 else None
+        else:
+            b0 = {'D': list(reversed(a0['D']))} if isinstance(a0, dict) and len(a0.get('D', [])) > 1 else None
+        if b0 is None or a0 is None:
+            continue
+        ca = dict(c, a=[a0] + c['a'][1:])
+        cb = dict(json.loads(json.dumps(c)), a=[b0] + c['a'][1:])
+        calls = [ca, cb] if rng.random() < 0.5 else [cb, ca]
+        case = _mk([name], calls, _tag_calls(TG, [name], calls, ['hash_alike', 'hash_alike:' + kind]))
+        case['ref_calls'] = [1]
+        yield case
+
+
+def _bad_variant(rng, c):
+    """a call that is expected to RAISE: empty votes, a non-mapping, or an absurd seat count"""
+    c = json.loads(json.dumps(c))
+    r = rng.random()
+    if c['a'] and r < 0.45 and isinstance(c['a'][0], dict) and 'D' in c['a'][0]:
+        c['a'][0] = {'D': []}
+    elif c['a'] and r < 0.8:
+        c['a'][0] = rng.choice([None, 'oops', 7])
+    elif len(c['a']) > 1 and isinstance(c['a'][1], int):
+        c['a'][1] = rng.choice([-1, 0])
+    elif c['a']:
+        c['a'][0] = None
+    return c
+
+
+def _size(c):
+    return len(json.dumps(c['a'][0])) if c['a'] else 0
+
+
+def _state_directed(rng, TG, names):
+    """per target: (i) a raising call, then the compared calls; (ii) prev_gains / max_seats first, then the same call without;
+    (iii) a larger input, then a smaller one, then the larger again"""
+    for name in names:
+        t = TG[name]
+        c = dict(t['gen'](rng), t=0)
+        calls = [dict(_bad_variant(rng, c), t=0), c, json.loads(json.dumps(c))]
+        yield _mk([name], calls, _tag_calls(TG, [name], calls, ['raise_first']))
+        withkw = None
+        for _ in range(8):
+            g = dict(t['gen'](rng), t=0)
+            if g.get('k') and any(k in g['k'] for k in ('prev_gains', 'max_seats')):
+                withkw = g
+                break
+        if withkw is not None:
+            bare = dict(json.loads(json.dumps(withkw)), k={k: v for k, v in withkw['k'].items() if k not in ('prev_gains', 'max_seats')})
+            try:
+                required = t['name'] in ('AdjustedSeatCount', 'AdjustedSeatCount:level', 'AllowOverhang', 'LevelOverhang',
+                                         'LevelOverhangByConstituency', 'SeatCountCalculator', 'PreviousGainThreshold')
+            except Exception:
+                required = False
+            if not required:
+                calls = [withkw, bare, json.loads(json.dumps(withkw)), json.loads(json.dumps(bare))]
+                yield _mk([name], calls, _tag_calls(TG, [name], calls, ['prev_gains_then_none']))
+        gs = sorted([dict(t['gen'](rng), t=0) for _ in range(4)], key=_size)
+        if _size(gs[-1]) > _size(gs[0]):
+            calls = [gs[-1], gs[0], json.loads(json.dumps(gs[-1]))]
+            yield _mk([name], calls, _tag_calls(TG, [name], calls, ['larger_then_smaller']))
+
+
+def _stv_refusals(rng, TG, n):
+    """a refused election (unbreakable tie / tied PAV alternatives / Condorcet paradox) and then an ordinary one"""
+    table = {
+        'TransferableVoteSelector': (D([(T(['c0']), 1), (T(['c1']), 1)]), 1),
+        'TransferableVoteSelector:irv': (D([(T(['c0']), 2), (T(['c1']), 2), (T(['c2']), 2)]), 1),
+        'TransferableVoteDistributor': (D([(T(['c0']), 3), (T(['c1']), 3)]), 1),
+        'TransferableVoteSelector:hare': (D([(T(['c0']), 1), (T(['c1']), 1)]), 1),
+        'ProportionalApproval': (D([(S(['c0']), 2), (S(['c1']), 2)]), 1),
+        'SequentialProportionalApproval': (D([(S(['c0']), 2), (S(['c1']), 2)]), 1),
+        'KemenyYoung': (D([(T(['c0', 'c1']), 2), (T(['c1', 'c2']), 2), (T(['c2', 'c0']), 2)]), 1),
+        'QuotaSelector': (D([('c0', 5), ('c1', 5), ('c2', 5)]), 2),
+        'LargestRemainder': (D([('c0', 0), ('c1', 0)]), 2),
+        'Benham': (D([(T(['c0']), 1), (T(['c1']), 1)]), 1),
+    }
+    for k in range(n):
+        name = list(table)[k % len(table)]
+        v, seats = table[name]
+        t = TG[name]
+        ok = dict(t['gen'](rng), t=0)
+        calls = [dict(call('evaluate', v, seats), t=0), ok, dict(call('evaluate', v, seats), t=0), json.loads(json.dumps(ok))]
+        yield _mk([name], calls, _tag_calls(TG, [name], calls, ['refusal_first']))
+
+
 def _exhaustive(TG):
     """small-scope exhaustive histories for the modelled machines (thorough tier)"""
     ap = [D([(S(['c0', 'c1']), 3), (S(['c0']), 2)]),
@@ -1796,15 +1951,107 @@ def untabled_classes():
 _generate_str = generate
 
 
-def generate(rng, tier):       # noqa: a quarter of the histories use int ids or '' for candidate 0
+def _num_value(v, mode, idx):
+    """the count v in another numeric type / magnitude (ties between equal counts are preserved)"""
+    if mode == 'frac':
+        return F(Fraction(v * 2, 3))
+    if mode == 'fracint':
+        return {'F': f'{v}/1'}                       # a Fraction with an integer value
+    if mode == 'dec':
+        return {'X': f'{v}.25'}
+    if mode == 'dec7':
+        return {'X': f'{v}.0000001'}                  # reduced denominator above 10^6
+    if mode == 'big':
+        return v * 10 ** 18 + 1
+    if mode == 'big53':
+        return v + 2 ** 53 - 1
+    if mode == 'huge':
+        return v * 10 ** 30
+    if mode == 'float':
+        return {'fl': repr(v * 1.4)}
+    return v
+
+
+def _num_transform(x, mode, state):
+    """apply a numeric mode to the counts (integer leaf values of the dicts) of a tagged votes argument"""
+    if isinstance(x, dict) and 'D' in x:
+        out = []
+        for k, v in x['D']:
+            if isinstance(v, int) and not isinstance(v, bool):
+                state[0] += 1
+                if mode == 'zero':
+                    v = [0, {'F': '0/1'}, {'X': '0'}][state[0] % 3] if state[0] % 2 else v
+                else:
+                    v = _num_value(v, mode, state[0])
+            elif isinstance(v, dict):
+                v = _num_transform(v, mode, state)
+            out.append([k, v])
+        return {'D': out}
+    return x
+
+
+def _post_tags(case):
+    """tags read off the finished history: which structural shapes it contains"""
+    tags = []
+    txt = json.dumps(case['calls'])
+    for c in case['calls']:
+        a0 = c['a'][0] if c['a'] else None
+        if isinstance(a0, dict) and 'D' in a0:
+            flat = [v for _, v in a0['D']]
+            if sum(1 for v in flat if v == 0 or v in ({'F': '0/1'}, {'X': '0'})) >= 2:
+                tags.append('zero_votes2')
+            keys = [k for k, _ in a0['D'] if isinstance(k, str)]
+            inner = [k for _, v in a0['D'] if isinstance(v, dict) and 'D' in v for k, _ in v['D'] if isinstance(k, str)]
+            if set(keys) & set(inner):
+                tags.append('name_clash')
+            pg = c.get('k', {}).get('prev_gains')
+            if pg and keys and any(isinstance(k, str) and k not in keys for k, _ in pg.get('D', [])):
+                tags.append('prev_absent_party')
+        if isinstance(a0, dict) and any(isinstance(k, dict) and 'T' in k and any(isinstance(i, dict) and len(i.get('S', [])) >= 3
+                                                                            for i in k['T'])
+                                        for k, _ in a0.get('D', []) if isinstance(a0.get('D'), list)):
+            tags.append('shared_rank3')
+    sizes = {}
+    for c in case['calls']:
+        sz = _size(c)
+        if c['t'] in sizes and sz < sizes[c['t']]:
+            tags.append('smaller_after_larger')
+        sizes[c['t']] = max(sz, sizes.get(c['t'], 0))
+    return tags
+
+
+def generate(rng, tier):       # noqa: naming and numeric modes, structural tags
     TG = TARGETS()
     for case in _generate_str(rng, tier):
+        ts = [TG[n] for n in case['targets']]
+        models = {t.get('model') for t in ts}
         r = rng.random()
-        if r < 0.25 and not any(TG[n].get('objects') for n in case['targets']):
-            # the validator models assume candidates the nominator accepts: it takes strings, not ints
-            validators = any(TG[n].get('model') in ('rankval', 'scoreval') for n in case['targets'])
-            case['names'] = 'int0' if r < 0.125 and not validators else 'empty0'
-            case['_tags'] = case['_tags'] + ['names:' + case['names']]
+        if r < 0.3 and not any(t.get('objects') for t in ts):
+            # the validator models assume candidates the nominator accepts: it takes strings, not ints;
+            # Person objects only where no Lean model reads the candidate ids back
+            mode = 'int0' if r < 0.1 else 'empty0' if r < 0.2 else 'person'
+            if models & {'rankval', 'scoreval'} and mode == 'int0':
+                mode = 'empty0'
+            if models & {'pav', 'borda', 'rankval', 'scoreval'} and mode == 'person':
+                mode = 'empty0'
+            case['names'] = mode
+            case['_tags'] = case['_tags'] + ['names:' + mode]
+        r = rng.random()
+        if r < 0.3 and 'hash_alike' not in case['_tags']:
+            mode = NUM_MODES[int(r / 0.3 * len(NUM_MODES)) % len(NUM_MODES)]
+            if not (mode == 'float' and models & {'pav', 'borda'}):
+                st = [0]
+                for c in case['calls']:
+                    if c['a']:
+                        c['a'][0] = _num_transform(c['a'][0], mode, st)
+                if st[0]:
+                    case['_tags'] = case['_tags'] + ['num:' + mode]
+        if any(t.get('param') or ':' in t['name'] and not t['name'].startswith(('fn:', 'singleton:', 'dispatch:', 'scorer:'))
+               for t in ts):
+            case['_tags'] = case['_tags'] + ['ctor_param_nondefault']
+        if any(t.get('function') for t in ts):
+            case['_tags'] = case['_tags'] + ['module_function']
+        case['_tags'] = sorted(set(case['_tags'] + _post_tags(case)))
         yield case
 
 
